@@ -8,6 +8,7 @@ import (
 	"os/exec"
 	"strconv"
 	"strings"
+	"sync/atomic"
 	"time"
 )
 
@@ -33,6 +34,8 @@ type Solver struct {
 	timeoutS int
 	record   bool
 	lines    [][]string
+	waitingSince int64
+	killed, closed int32
 }
 
 func NewSolver(kind string, timeoutMs int) *Solver {
@@ -67,6 +70,7 @@ func NewSolver(kind string, timeoutMs int) *Solver {
 		f, _ := os.Create(fmt.Sprintf("%s.%d", p, cmd.Process.Pid))
 		s.log = f
 	}
+	go s.watchdog(90 * time.Second)
 	if kind == "cvc5" {
 		s.send("(set-logic QF_BV)")
 	} else {
@@ -76,6 +80,11 @@ func NewSolver(kind string, timeoutMs int) *Solver {
 }
 
 func (s *Solver) Close() {
+	atomic.StoreInt32(&s.closed, 1)
+	if atomic.LoadInt32(&s.killed) != 0 {
+		s.cmd.Wait()
+		return
+	}
 	s.send("(exit)")
 	s.in.Flush()
 	s.cmd.Process.Kill()
@@ -207,11 +216,36 @@ func (s *Solver) Assert(t *Term) {
 	s.send("(assert " + t.ref() + ")")
 }
 
+// solverDied is raised when the solver process ends or is killed by the watchdog.
+type solverDied struct{ why string }
+
+// watchdog kills the solver when a single response takes longer than limit (z3's own :timeout does not
+// cover every phase, e.g. model evaluation or preprocessing).
+func (s *Solver) watchdog(limit time.Duration) {
+	for {
+		time.Sleep(2 * time.Second)
+		if atomic.LoadInt32(&s.closed) != 0 {
+			return
+		}
+		since := atomic.LoadInt64(&s.waitingSince)
+		if since != 0 && time.Since(time.Unix(0, since)) > limit {
+			atomic.StoreInt32(&s.killed, 1)
+			s.cmd.Process.Kill()
+			return
+		}
+	}
+}
+
 func (s *Solver) readLine() string {
 	for {
+		atomic.StoreInt64(&s.waitingSince, time.Now().UnixNano())
 		line, err := s.out.ReadString('\n')
+		atomic.StoreInt64(&s.waitingSince, 0)
 		if err != nil {
-			panic(fmt.Sprintf("solver %s died: %v (last error %q)", s.kind, err, s.lastErr))
+			if atomic.LoadInt32(&s.killed) != 0 {
+				panic(solverDied{"solver watchdog: no response within the wall-clock limit"})
+			}
+			panic(solverDied{fmt.Sprintf("solver %s died: %v (last error %q)", s.kind, err, s.lastErr)})
 		}
 		line = strings.TrimSpace(line)
 		if line == "" {
